@@ -365,7 +365,7 @@ func runKS(c *eng.Ctx, cf cfg) {
 		lq := rnd.N(lqMax + 1)
 		lp := lpMax
 		if lpMax >= 0 && rnd.N(2) == 0 {
-			lp = rnd.N(lpMax + 1)
+			lp = rnd.N(lpMax+2) - 1 // -1: a key that does not use the auxiliary modulus of the parameters
 		}
 		if trial == 0 {
 			lq, lp = lqMax, lpMax
